@@ -611,6 +611,17 @@ func init() {
 		Variant{Name: "benign: same patch seen by C03", Property: "C03", File: "seeded-benign/C01-entry-inside-loop-before-handover.diff", Benign: true,
 			Patch: "seeded-benign/C01-entry-inside-loop-before-handover.diff"},
 	)
+	// ---- relay loops (O2.8 / O3.9 / O4.11 / O6.10): guards that skip nothing of the relayed kind
+	addVariants(
+		Variant{Name: "benign: receiver skips a nil / bodiless response before the kind test", Property: "C02", File: "seeded-benign/C02-nil-message-guard.diff", Benign: true,
+			Patch: "seeded-benign/C02-nil-message-guard.diff"},
+		Variant{Name: "benign: same patch seen by C03", Property: "C03", File: "seeded-benign/C02-nil-message-guard.diff", Benign: true,
+			Patch: "seeded-benign/C02-nil-message-guard.diff"},
+		Variant{Name: "benign: same patch seen by C04", Property: "C04", File: "seeded-benign/C02-nil-message-guard.diff", Benign: true,
+			Patch: "seeded-benign/C02-nil-message-guard.diff"},
+		Variant{Name: "benign: intra-proxy ack relay dispatches with a type switch", Property: "C04", File: ipr, Benign: true,
+			Old: "\t\tif attr, ok := req.GetAttributes().(*adminservice.StreamWorkflowReplicationMessagesRequest_SyncReplicationState); ok && attr.SyncReplicationState != nil {\n\t\t\tack := attr.SyncReplicationState.InclusiveLowWatermark\n", New: "\t\tswitch attr := req.GetAttributes().(type) {\n\t\tcase *adminservice.StreamWorkflowReplicationMessagesRequest_SyncReplicationState:\n\t\t\tif attr.SyncReplicationState == nil {\n\t\t\t\tcontinue\n\t\t\t}\n\t\t\tack := attr.SyncReplicationState.InclusiveLowWatermark\n"},
+	)
 	// ---- swallowed errors and retained state (general rules)
 	addVariants(
 		Variant{Name: "blob repair error logged and dropped", Property: "C17", File: refl,
